@@ -123,6 +123,12 @@ func realMain(args []string) int {
 		if budget > 0 {
 			cfg.budgetS = budget
 		}
+		if s := os.Getenv("VERIF_MINIMISE_S"); s != "" {
+			// development knob (mutant catalogue): less time spent minimising
+			if f, err := strconv.ParseFloat(s, 64); err == nil && f >= 0 {
+				cfg.minimiseS = f
+			}
+		}
 		return check(cfg)
 	case "selftest":
 		if len(args) < 2 || args[1] != "determinism" {
